@@ -1163,14 +1163,15 @@ def dangling_class(case):
 
 
 def leafid_class(case):
-    """a view with >= 2 operands that is not a broadcasting ufunc (outer, matmul, concatenate ...) and has a view among its operands: operand ids are
-    positions local to each sub-view and are not renumbered, so leaves of different sub-views can share an id"""
+    """operand (leaf) ids are positions local to each sub-view and only a broadcasting ufunc renumbers its DIRECT leaves: leaves can share an id when
+    a non-ufunc view with >= 2 operands has a view among them (outer, matmul, concatenate ...) or when any view has two view operands"""
     if case.get("kind") != "extract" or case.get("alias"):
         return False
     nl = len(case["arrays"])
     for s in case["stages"]:
         fx = FX[s["f"]]
-        if fx.arity >= 2 and fx.group != "ufunc" and any(i >= nl for i in s["in"]):
+        nv = sum(1 for i in s["in"] if i >= nl)
+        if (fx.arity >= 2 and fx.group != "ufunc" and nv >= 1) or nv >= 2:
             return True
     return False
 
@@ -1323,6 +1324,9 @@ def _collect(out, its, rendered, r, final=False):
 # ---------------------------------------------------------------------------------------------
 # judging
 # ---------------------------------------------------------------------------------------------
+DIRECT_CRASH = "DIRECT-VIEW-CRASH "
+
+
 def same_obs(a, b):
     if a.get("hv") is False or b.get("hv") is False:
         return "no value (%s vs %s)" % (a.get("hv"), b.get("hv")) if a.get("hv") != b.get("hv") else None
@@ -1360,8 +1364,12 @@ def judge(case, res):
     recs = res["recs"]
     meta = {m["id"]: m for m in res["meta"]}
     crash = res.get("crash")
+    if crash and not recs:
+        # the direct view expression (always the first record) crashed: a defect of the views involved, outside this property
+        return [DIRECT_CRASH + json.dumps(crash)[:400]]
     if crash:
-        fails.append("program crashed after %d of %d records: %s" % (len(recs), len(meta), json.dumps(crash)[:500]))
+        missing = [m["role"] for i, m in meta.items() if i not in recs]
+        fails.append("program crashed after %d of %d records [%s]: %s" % (len(recs), len(meta), ",".join(missing), json.dumps(crash)[:500]))
     exp = expected_of(case)
     tol = tol_of(case)
     kind = case["kind"]
@@ -1491,6 +1499,8 @@ def classify(case, failure):
         return F_BCAST
     if "extracted composition applied" in f and not is_left_spine(case):
         return F_SPINE
+    if f.startswith("program crashed") and "[apply]" in f and not is_left_spine(case):
+        return F_SPINE      # the wrongly routed composition may also be ill-formed (shape mismatch -> assertion / out-of-range read)
     if "extracted operands" in f and not is_left_spine(case):
         return None
     if ("view ids are not unique" in f or f.startswith("graph:")) and same_sig_pairs(case):
@@ -1699,6 +1709,10 @@ class C14(e2.ProgenProp):
             except Exception as e:  # oracle bug: never a pass
                 import traceback
                 fl_ = ["HARNESS-ERROR oracle exception %r %s" % (e, traceback.format_exc()[-500:])]
+            if fl_ and fl_[0].startswith(DIRECT_CRASH):
+                stats.rejected["direct_view_crashed(not judged)"] = stats.rejected.get("direct_view_crashed(not judged)", 0) + 1
+                info.setdefault("direct_view_crashes", []).append({"case": e2._trim(case, 900), "crash": fl_[0][len(DIRECT_CRASH):][:300]})
+                fl_ = []
             fl_ = self._filter_known(case, fl_, stats, it)
             for f in fl_[:2]:
                 cc = dict(case, _external=True, cfg=it["cfg"])
@@ -1794,7 +1808,7 @@ class C14(e2.ProgenProp):
         r = res.get("b0", {"status": "missing"})
         if r["status"] != "ok":
             return []
-        return [(case, f, {}) for f in judge(c, r)]
+        return [(case, f, {}) for f in judge(c, r) if not f.startswith(DIRECT_CRASH)]
 
 
 # ---------------------------------------------------------------------------------------------
